@@ -465,9 +465,6 @@ func registerNatives(P *Program) {
 		}
 		return nil
 	})
-	reg("(*sync.WaitGroup).Add", nop)
-	reg("(*sync.WaitGroup).Done", nop)
-	reg("(*sync.WaitGroup).Wait", nop)
 	reg("runtime.KeepAlive", nop)
 	reg("runtime.SetFinalizer", nop)
 	reg("runtime.Gosched", nop)
